@@ -130,12 +130,13 @@ Cmp(tag, cls, id, pcs) == [tag |-> tag, cls |-> cls, id |-> id, pcs |-> pcs]
 One(c) == [cs |-> <<c>>, comb |-> <<>>]
 
 \* sibling lists under the root: "p" "q" elements, "#" non-blank text, "_" blank text, "!" comment
-KidLists(n) == UNION {[1..m -> {"p", "q", "#", "_", "!"}] : m \in 0..n}
+\* ("q" and "r" are materialised as custom elements unknown to the HTML atom table)
+KidLists(n) == UNION {[1..m -> {"p", "q", "r", "#", "_", "!"}] : m \in 0..n}
 TreeOfKids(ks) ==
   [n |-> Len(ks) + 1, par |-> [x \in 1..Len(ks) + 1 |-> IF x = 1 THEN 0 ELSE 1],
    kind |-> [x \in 1..Len(ks) + 1 |-> IF x = 1 THEN "elem" ELSE
-               CASE ks[x - 1] \in {"p", "q"} -> "elem" [] ks[x - 1] = "!" -> "comment" [] OTHER -> "text"],
-   tag  |-> [x \in 1..Len(ks) + 1 |-> IF x = 1 THEN "html" ELSE IF ks[x - 1] \in {"p", "q"} THEN ks[x - 1] ELSE ""],
+               CASE ks[x - 1] \in {"p", "q", "r"} -> "elem" [] ks[x - 1] = "!" -> "comment" [] OTHER -> "text"],
+   tag  |-> [x \in 1..Len(ks) + 1 |-> IF x = 1 THEN "html" ELSE IF ks[x - 1] \in {"p", "q", "r"} THEN ks[x - 1] ELSE ""],
    cls  |-> [x \in 1..Len(ks) + 1 |-> FALSE], id |-> [x \in 1..Len(ks) + 1 |-> FALSE],
    hasattr |-> [x \in 1..Len(ks) + 1 |-> FALSE], attr |-> [x \in 1..Len(ks) + 1 |-> <<>>],
    blank |-> [x \in 1..Len(ks) + 1 |-> x > 1 /\ ks[x - 1] = "_"]]
